@@ -1,13 +1,16 @@
 """C19 translator: regenerates, from /repo's current source (and the running CPython for the str/int/re
 primitives the decoders lean on),
 
-  Gen/CliUnicode.v  character tables used by Model/Cli.v: code points int() strips / reads as decimal digits,
-                    re's \\s and \\d, the non-ASCII code points whose str.lower()/str.upper() image is pure
-                    ASCII, NamedColors, logging level names, sys.get_int_max_str_digits();
+  Gen/CliUnicode.v  character tables used by Model/Cli.v: re's \\s (and \\d = [0-9]) under re.ASCII, what `.` excludes,
+                    the non-ASCII code points whose str.lower()/str.upper() image is pure ASCII, NamedColors,
+                    logging level names, sys.get_int_max_str_digits();
   Gen/CliTables.v   what Model/Cli.v transcribes by hand and Proofs/C19/Tables.v compares by vm_compute:
                     FileTypes members, the DocumentFilter registry, the dataclass fields of every module
-                    configuration (order, presence of a decoder), `Cls.parse({})` (the defaults *after* their
-                    decoders), and every decoder's behaviour on a fixed finite probe set.
+                    configuration (order, optional, name of the decoder), `Cls.parse({})` (the defaults *after* their
+                    decoders), the argparse declarations (sub-commands; option strings, destination, action, required,
+                    default of `convert`), and every decoder's behaviour on a fixed finite probe set;
+  Gen/CliShape.v    the body of tt.convert read from its AST: the order of its effects and, per file type, which
+                    reader / writer module is called with which configuration section.
 
 Fail-closed: an exception type, enum member or value shape that is not known aborts the generator.
 Also exports the JSON / plan literal printers used by harness/c19.py.
@@ -104,8 +107,7 @@ def bool_lit(b):
 
 def mrc_lit(v):
     if v == "MNR" and isinstance(v, str): return "MrcMNR"
-    if isinstance(v, bool): return f"(MrcBool {C.boolean(v)})"
-    if isinstance(v, int): return f"(MrcInt {C.z(v)})"
+    if isinstance(v, int) and not isinstance(v, bool): return f"(MrcInt {C.z(v)})"
     raise GenError(f"max_row_count {v!r}")
 
 
@@ -207,10 +209,10 @@ def decode_key(section, field, v):
             from ttconv.config import GeneralConfiguration
             g = GeneralConfiguration.parse({field: v})
             x = getattr(g, field)
-            # the three general fields have no decoder: they are interpreted where tt.convert uses them
+            # log_level and document_lang have no decoder: they are interpreted where tt.convert uses them
+            if field == "progress_bar":         # progress.display_progress_bar = x
+                return ("ok", f"(CBool {bool_lit(x)})")
             if x is None: return ("ok", "CNone")
-            if field == "progress_bar":         # progress.display_progress_bar = x ; read as `not x`
-                return ("ok", f"(CBool {C.boolean(bool(x))})")
             if field == "log_level":            # LOGGER.setLevel(x)
                 lg = logging.Logger("c19-probe"); lg.setLevel(x)
                 return ("ok", f"(CInt {C.z(int(lg.level))})")
@@ -267,43 +269,19 @@ def probe_values(key):
 
 
 # ------------------------------------------------------------------ Gen/CliUnicode.v
-def digit_zeros(fn):
-    """code points c for which fn(chr(c)) is a decimal digit value d; returned as the zeros of contiguous blocks 0..9"""
-    vals = {}
-    for cp in range(0x110000):
-        if 0xD800 <= cp <= 0xDFFF: continue
-        d = fn(chr(cp))
-        if d is not None: vals[cp] = d
-    zeros = sorted(cp for cp, d in vals.items() if d == 0)
-    covered = {}
-    for z0 in zeros:
-        for k in range(10): covered[z0 + k] = k
-    if covered != vals: raise GenError("decimal digits are not contiguous blocks 0..9")
-    return zeros
-
-
 def gen_unicode():
     import ttconv.style_properties as styles
     out = ["(* GENERATED by harness/gen_c19.py from the running CPython and ttconv.style_properties — do not edit *)",
            "From TT Require Import Base.Prelude.", ""]
 
-    def int_digit(ch):
-        try: v = int(ch)
-        except ValueError: return None
-        return v
-    def int_space(ch):
-        try: return int(ch + "5") == 5 and int("5" + ch) == 5
-        except ValueError: return False
     allchars = "".join(chr(cp) for cp in range(0x110000) if not 0xD800 <= cp <= 0xDFFF)
-    iz = digit_zeros(int_digit)
-    re_d = set(re.findall(r"\d", allchars))
-    rz = digit_zeros(lambda ch: (int(ch) if ch in re_d else None))
-    if iz != rz: raise GenError("re \\d and int() disagree on the decimal digits")
-    out.append("Definition dec_zeros : list Z := [" + "; ".join(map(str, iz)) + "].")
-    isp = [ord(ch) for ch in allchars if int_space(ch)]
-    out.append("Definition int_spaces : list Z := [" + "; ".join(map(str, isp)) + "].")
-    rsp = sorted(ord(ch) for ch in set(re.findall(r"\s", allchars)))
-    out.append("Definition re_spaces : list Z := [" + "; ".join(map(str, rsp)) + "].")
+    # \d and \s as the decimal colour patterns see them (re.ASCII): \d must be exactly [0-9]
+    if "".join(re.findall(r"\d", allchars, re.ASCII)) != "0123456789": raise GenError("re.ASCII \\d is not [0-9]")
+    rsp = sorted(ord(ch) for ch in set(re.findall(r"\s", allchars, re.ASCII)))
+    out.append("Definition re_ascii_spaces : list Z := [" + "; ".join(map(str, rsp)) + "].")
+    # int() on ASCII digit strings is plain decimal reading (sanity of the transcription's only use of int())
+    for t in ("0", "007", "255", "256", "30000", "9" * 40):
+        if int(t) != sum((ord(c) - 48) * 10 ** i for i, c in enumerate(reversed(t))): raise GenError("int() on digits")
     # re `.` without DOTALL: everything but "\n"
     nodot = [ord(ch) for ch in allchars if not re.fullmatch(r".", ch)]
     out.append("Definition re_dot_excluded : list Z := [" + "; ".join(map(str, nodot)) + "].")
@@ -334,6 +312,190 @@ def gen_unicode():
     return "\n".join(out) + "\n"
 
 
+# ------------------------------------------------------------------ the shape of tt.convert, from its AST
+def _call_name(node):
+    """dotted name of the function of a Call node, or None"""
+    import ast
+    f = node.func if isinstance(node, ast.Call) else None
+    parts = []
+    while isinstance(f, ast.Attribute):
+        parts.append(f.attr); f = f.value
+    if isinstance(f, ast.Name):
+        parts.append(f.id); return ".".join(reversed(parts))
+    return None
+
+
+def _calls(nodes):
+    import ast
+    out = []
+    for n in nodes:
+        for x in ast.walk(n):
+            if isinstance(x, ast.Call): out.append(x)
+    return out
+
+
+def _mentions(node, name):
+    import ast
+    return any(isinstance(x, ast.Name) and x.id == name for x in ast.walk(node))
+
+
+def analyse_convert():
+    """Reads the body of tt.convert statement by statement and returns
+         (phases in statement order, reader dispatch, writer dispatch)
+    where a dispatch row is (FileTypes member value, module alias whose to_model/from_model is called, configuration
+    section handed to it or None).  Any statement of an unknown shape, a configuration read after the call it
+    configures, or an output path used before the writer has returned aborts the generator."""
+    import ast, inspect
+    import ttconv.tt as tt
+    tree = ast.parse(inspect.getsource(tt))
+    fns = [n for n in tree.body if isinstance(n, ast.FunctionDef) and n.name == "convert"]
+    if len(fns) != 1: raise GenError("tt.convert not found")
+    body = list(fns[0].body)
+    if body and isinstance(body[0], ast.Expr) and isinstance(body[0].value, ast.Constant) and isinstance(body[0].value.value, str): body = body[1:]
+    U = ast.unparse
+    phases = []; readers = []; writers = []
+
+    def chain(node, var):
+        """[(member name, body)] of an if/elif chain testing `var is FileTypes.X`, and the else body"""
+        rows = []
+        while True:
+            t = node.test
+            if not (isinstance(t, ast.Compare) and len(t.ops) == 1 and isinstance(t.ops[0], ast.Is) and U(t.left) == var
+                    and U(t.comparators[0]).startswith("FileTypes.")):
+                raise GenError(f"dispatch test of unknown shape: {U(t)}")
+            rows.append((U(t.comparators[0]).split(".")[1], node.body))
+            if len(node.orelse) == 1 and isinstance(node.orelse[0], ast.If): node = node.orelse[0]
+            else: return rows, node.orelse
+
+    def dispatch(node, var, method, outvar):
+        rows, orelse = chain(node, var)
+        if not any(_call_name(c) == "sys.exit" for c in _calls(orelse)): raise GenError(f"{var}: the else branch does not exit")
+        if any(_call_name(c) and _call_name(c).endswith("." + method) for c in _calls(orelse)): raise GenError(f"{var}: call in the else branch")
+        out = []
+        for member, stmts in rows:
+            idx_call = [i for i, st in enumerate(stmts) if any((_call_name(c) or "").endswith("." + method) for c in _calls([st]))]
+            if len(idx_call) != 1: raise GenError(f"{var} {member}: expected one {method} call")
+            call = [c for c in _calls([stmts[idx_call[0]]]) if (_call_name(c) or "").endswith("." + method)]
+            if len(call) != 1: raise GenError(f"{var} {member}: expected one {method} call")
+            alias = _call_name(call[0])[:-len(method) - 1]
+            cfgs = [(i, c) for i, st in enumerate(stmts) for c in _calls([st]) if _call_name(c) == "read_config_from_json"]
+            sec = None
+            if cfgs:
+                if len(cfgs) != 1 or cfgs[0][0] >= idx_call[0]: raise GenError(f"{var} {member}: configuration read after the call")
+                c = cfgs[0][1]
+                if len(c.args) != 2 or not isinstance(c.args[0], ast.Name) or U(c.args[1]) != "json_config_data": raise GenError(f"{var} {member}: read_config_from_json arguments")
+                cls = getattr(tt, c.args[0].id)
+                sec = cls.name()
+                # the configuration read is what is handed to the call
+                tgt = [U(st.targets[0]) for st in stmts if isinstance(st, ast.Assign) and c in _calls([st])]
+                if len(tgt) != 1 or not any(U(a) == tgt[0] for a in call[0].args): raise GenError(f"{var} {member}: configuration not passed to {method}")
+            else:
+                # no configuration is read in this branch: no argument may be named like one
+                if any("config" in U(a) for a in call[0].args): raise GenError(f"{var} {member}: unexpected configuration argument")
+            if outvar is not None:
+                uses = [i for i, st in enumerate(stmts) if _mentions(st, outvar)]
+                if not uses or min(uses) <= idx_call[0]: raise GenError(f"{var} {member}: {outvar} used before {method} returned")
+            out.append((getattr(tt.FileTypes, member).value, alias, sec))
+        return out
+
+    def add(ph):
+        phases.append(ph)
+
+    for st in body:
+        src = U(st)
+        if src in ("inputfile = args.input", "outputfile = args.output"): continue
+        if isinstance(st, ast.Expr) and _call_name(st.value) in ("LOGGER.info", "LOGGER.debug"): continue
+        if src == "json_config_data = None": add("load_config"); continue
+        if isinstance(st, ast.If) and U(st.test) == "args.config is not None" and not st.orelse:
+            if [U(x) for x in st.body] != ["json_config_data = json.loads(args.config)"]: raise GenError("inline configuration: " + src)
+            add("inline"); continue
+        if isinstance(st, ast.If) and U(st.test) == "args.config_file is not None" and not st.orelse:
+            ok = len(st.body) == 1 and isinstance(st.body[0], ast.With) and U(st.body[0].items[0].context_expr) == "open(args.config_file)" \
+                 and [U(x) for x in st.body[0].body] == ["json_config_data = json.load(json_file)"]
+            if not ok: raise GenError("configuration file: " + src)
+            add("file"); continue
+        if isinstance(st, (ast.AnnAssign, ast.Assign)) and U(st.value) == "read_config_from_json(GeneralConfiguration, json_config_data)":
+            add("general"); continue
+        if isinstance(st, ast.If) and U(st.test) == "general_config is not None" and not st.orelse:
+            inner = [(U(x.test), [U(y) for y in x.body]) for x in st.body if isinstance(x, ast.If) and not x.orelse]
+            if len(inner) != len(st.body) or inner != [
+                    ("general_config.progress_bar is not None", ["progress.display_progress_bar = general_config.progress_bar"]),
+                    ("general_config.log_level is not None", ["LOGGER.setLevel(general_config.log_level)"])]:
+                raise GenError("general section handling: " + src)
+            add("progress"); add("level"); continue
+        if isinstance(st, ast.Assign) and _call_name(st.value) == "os.path.splitext":
+            if U(st.value) not in ("os.path.splitext(inputfile)", "os.path.splitext(outputfile)"): raise GenError(src)
+            continue
+        if src == "reader_type = FileTypes.get_file_type(args.itype, input_file_extension)": add("itype"); continue
+        if src == "writer_type = FileTypes.get_file_type(args.otype, output_file_extension)": add("otype"); continue
+        if isinstance(st, ast.If) and _mentions(st.test, "reader_type"):
+            readers[:] = dispatch(st, "reader_type", "to_model", None); add("read"); continue
+        if isinstance(st, ast.If) and U(st.test) == "general_config is not None and general_config.document_lang is not None" and not st.orelse:
+            if [U(x) for x in st.body] != ["model.set_lang(general_config.document_lang)"]: raise GenError(src)
+            add("lang"); continue
+        if isinstance(st, ast.For) and U(st.target) == "filter_name" and U(st.iter) == "args.filter" and not st.orelse:
+            names = [_call_name(c) for c in _calls(st.body)]
+            want = ["DocumentFilter.get_filter_by_name", "LOGGER.error", "doc_filter_class.get_config_class", "read_config_from_json",
+                    "doc_filter_class", "filter_config_class", "doc_filter.process"]
+            if names != want: raise GenError(f"filter loop calls {names}")
+            lines = [U(x) for x in st.body]
+            if lines[1] != "if doc_filter_class is None:\n    LOGGER.error('Unknown filter: %s', filter_name)\n    continue": raise GenError("filter loop: unknown filter handling")
+            if "read_config_from_json(filter_config_class, json_config_data)" not in lines[3] or \
+               "doc_filter_class(filter_config or filter_config_class())" not in lines[4] or lines[5] != "doc_filter.process(model)":
+                raise GenError("filter loop body")
+            add("filters"); continue
+        if isinstance(st, ast.If) and _mentions(st.test, "writer_type"):
+            writers[:] = dispatch(st, "writer_type", "from_model", "outputfile"); add("write"); continue
+        raise GenError("tt.convert: statement of unknown shape: " + src[:120])
+    # the output path is not touched outside the writer branches
+    for st in body:
+        if isinstance(st, ast.If) and _mentions(st.test, "writer_type"): continue
+        if src_uses_output(st): raise GenError("outputfile used outside the writer dispatch: " + U(st)[:80])
+    return phases, readers, writers
+
+
+def src_uses_output(st):
+    import ast
+    if ast.unparse(st) == "outputfile = args.output": return False
+    if isinstance(st, ast.Expr) and _call_name(st.value) in ("LOGGER.info", "LOGGER.debug"): return False
+    if isinstance(st, ast.Assign) and ast.unparse(st.value) == "os.path.splitext(outputfile)": return False
+    return _mentions(st, "outputfile") or any(isinstance(x, ast.Attribute) and x.attr == "output" for x in ast.walk(st))
+
+
+def argparse_table():
+    """(sub-commands, rows of the convert parser: (option string, dest, action class, nargs, required, default))"""
+    import argparse
+    import ttconv.tt as tt
+    cli = tt.cli
+    if cli.prefix_chars != "-" or cli.fromfile_prefix_chars is not None: raise GenError("parser settings")
+    top = [a for a in cli._actions if not isinstance(a, argparse._HelpAction)]
+    if len(top) != 1 or not isinstance(top[0], argparse._SubParsersAction) or top[0].dest != "subcommand" or top[0].required:
+        raise GenError("top-level parser: expected only the optional sub-command")
+    subs = list(top[0].choices)
+    rows = []
+    for name, parser in top[0].choices.items():
+        if name != "convert": raise GenError(f"sub-command {name} is not transcribed")
+        if parser.get_default("func") is not tt.__dict__.get("convert") and parser.get_default("func").__name__ != "convert":
+            raise GenError("convert sub-parser does not call convert")
+        for a in parser._actions:
+            if not a.option_strings: raise GenError(f"positional argument {a.dest}")
+            kind = type(a).__name__
+            if kind not in ("_HelpAction", "_StoreAction", "_AppendAction"): raise GenError(f"action {kind}")
+            if kind != "_HelpAction" and (a.nargs is not None or a.const is not None or a.type is not None or a.choices is not None):
+                raise GenError(f"argument {a.dest}: nargs/const/type/choices")
+            dflt = {None: "None"}.get(a.default, repr(a.default)) if not isinstance(a.default, list) else repr(a.default)
+            for o in a.option_strings:
+                rows.append((o, a.dest, kind, bool(a.required), dflt))
+    return subs, rows
+
+
+def decoder_name(dec):
+    """name of a field's decoder: a function or class by its qualified name, a callable instance by its class name"""
+    if dec is None: return ""
+    if hasattr(dec, "__qualname__"): return dec.__qualname__
+    return type(dec).__name__
+
+
 # ------------------------------------------------------------------ Gen/CliTables.v
 def gen_tables():
     import ttconv.tt as tt
@@ -348,25 +510,32 @@ def gen_tables():
     for name, cls in DocumentFilter._all_filters.items():
         rows.append(f"({txt(name)}, {txt(cls.get_config_class().name())})")
     out.append("Definition gen_filter_registry : list (text * text) := [" + "; ".join(rows) + "].")
-    # dataclass fields: order, "optional" as ModuleConfiguration.validate computes it, decoder present
+    # dataclass fields: order, "optional" as ModuleConfiguration.validate computes it, the name of the decoder ("" = none)
     rows = []
     for cls in classes():
         frows = []
         for f in cls.get_fields():
             if (cls.name(), f.name) not in KEYS: raise GenError(f"unknown configuration field {cls.name()}.{f.name}")
             optional = "Optional" in f.type or cls.get_field_default(f) is not None
-            frows.append(f"({txt(f.name)}, {C.boolean(optional)}, {C.boolean(f.metadata.get('decoder') is not None)})")
-        rows.append(f"({txt(cls.name())}, [" + "; ".join(frows) + "])")
+            if set(f.metadata) - {"decoder"}: raise GenError(f"unknown field metadata {cls.name()}.{f.name}: {sorted(f.metadata)}")
+            if f.default_factory is not dataclasses.MISSING: raise GenError(f"default_factory on {cls.name()}.{f.name}")
+            frows.append(f"({txt(f.name)}, {C.boolean(optional)}, {txt(decoder_name(f.metadata.get('decoder')))})")
+        rows.append(f"({txt(cls.name())}, {txt(cls.__name__)}, [" + "; ".join(frows) + "])")
     known = {c.name() for c in classes()}
     for (s, _f) in KEYS:
         if s not in known: raise GenError(s)
-    out.append("Definition gen_config_fields : list (text * list (text * bool * bool)) := [" + ";\n  ".join(rows) + "].")
+    out.append("Definition gen_config_fields : list (text * text * list (text * bool * text)) := [" + ";\n  ".join(rows) + "].")
+    # argparse: sub-commands and the options of `convert`
+    subs, arows = argparse_table()
+    out.append("Definition gen_subcommands : list text := [" + "; ".join(txt(x) for x in subs) + "].")
+    out.append("Definition gen_options : list (text * text * text * bool * text) := [" +
+               "; ".join(f"({txt(o)}, {txt(d)}, {txt(k)}, {C.boolean(rq)}, {txt(df)})" for o, d, k, rq, df in arows) + "].")
     # which configuration classes tt.convert can reach: the readers/writers it names
     cl = {c.name(): c for c in classes()}
     g = cl["general"].parse({})
     def gl(x):
         return jlit(x)
-    out.append(f"Definition gen_default_general : json * json * json := ({gl(g.log_level)}, {gl(g.progress_bar)}, {gl(g.document_lang)}).")
+    out.append(f"Definition gen_default_general : json * bool * json := ({gl(g.log_level)}, {bool_lit(g.progress_bar)}, {gl(g.document_lang)}).")
     out.append(f"Definition gen_default_scc : scc_align := {scc_cfg_lit(cl['scc_reader'].parse({}))}.")
     out.append(f"Definition gen_default_stl : stl_cfg := {stl_cfg_lit(cl['stl_reader'].parse({}), None)}.")
     out.append(f"Definition gen_default_imsc : imsc_cfg := {imsc_cfg_lit(cl['imsc_writer'].parse({}))}.")
@@ -387,4 +556,21 @@ def gen_tables():
     return "\n".join(out) + "\n"
 
 
-GENERATORS = {"CliUnicode": gen_unicode, "CliTables": gen_tables}
+def gen_shape():
+    """Gen/CliShape.v: the body of tt.convert read from its AST (order of its effects, reader and writer dispatch with
+    their configuration sections).  Kept apart from CliTables.v so that a change of shape stops the proofs (Tables.v)
+    but not the correspondence run, which can then still look for a concrete failing command line."""
+    out = ["(* GENERATED by harness/gen_c19.py from the AST of ttconv/tt.py convert — do not edit *)",
+           "From TT Require Import Base.Prelude Base.CliTypes.", ""]
+    phases, readers, writers = analyse_convert()
+    known = {c.name() for c in classes()}
+    out.append("Definition gen_phases : list text := [" + "; ".join(txt(x) for x in phases) + "].")
+    drow = lambda r: f"({txt(r[0])}, {txt(r[1])}, {opt(r[2], txt)})"
+    out.append("Definition gen_reader_table : list (text * text * option text) := [" + "; ".join(drow(r) for r in readers) + "].")
+    out.append("Definition gen_writer_table : list (text * text * option text) := [" + "; ".join(drow(r) for r in writers) + "].")
+    for r in readers + writers:
+        if r[2] is not None and r[2] not in known: raise GenError(f"configuration section {r[2]} is not transcribed")
+    return "\n".join(out) + "\n"
+
+
+GENERATORS = {"CliUnicode": gen_unicode, "CliTables": gen_tables, "CliShape": gen_shape}
